@@ -1,7 +1,7 @@
 import RotondaModel.Model.VribQuery
 /-! Line driver for `Model/VribQuery.lean`. One case per input line (formats: see
 `harness/src/bin/vribquery.rs`), one output line per case. Parsing / printing glue, unverified.
-Arguments: `reprocess=as-written|repaired clientgone=as-written|repaired sortscope=as-written|repaired listing=as-observed|contract`. -/
+Arguments: `reprocess=as-written|repaired clientgone=as-written|repaired sortscope=as-written|repaired listing=as-observed|contract cmp=as-written|total`. -/
 open Rotonda.VribQuery
 open Rotonda.RibQuery (Str Prefix Fam Rec Store Rib Limits Url parseQuery)
 
@@ -137,24 +137,24 @@ def parseVReq (k : Nat) (s : String) : Option VReq :=
     | _ => none
   | _ => none
 
-def runLine (vv : VVariant) (sv : SortVariant) (lv : ListVariant) (line : String) : String :=
+def runLine (vv : VVariant) (sv : SortVariant) (lv : ListVariant) (total : Bool) (line : String) : String :=
   match line.splitOn "|" with
   | ["C", a, b] =>
     match parseOne a, parseOne b with
-    | some x, some y => showOrd (cmpJson x y)
+    | some x, some y => showOrd (if total then cmpJsonT x y else cmpJson x y)
     | _, _ => "parse-error"
   | ["S", keys, vals] =>
     match parseMany (tokens vals) with
     | some xs =>
       let sort : Option Str := if keys == "-" then none else some (unhex keys.toList)
-      showIdx (sortSectionIdx ⟨true⟩ sort xs)
+      showIdx (if total then sortSectionIdxT ⟨true⟩ sort xs else sortSectionIdx ⟨true⟩ sort xs)
     | none => "parse-error"
   | "R" :: pfx :: lim :: query :: d :: l :: m :: _ =>
     let sec (s : String) : Option (Option (List J)) := if s == "-" then some none else (parseMany (tokens s)).map some
     match lim.splitOn ",", parseMany (tokens d), sec l, sec m with
     | [a, b], some d, some l, some m =>
       let url : Url := ⟨parsePrefix pfx, parseQuery (unhex query.toList)⟩
-      match handleSorted sv ⟨a.toNat!, b.toNat!⟩ url d l m with
+      match (if total then handleSortedT sv ⟨a.toNat!, b.toNat!⟩ url d l m else handleSorted sv ⟨a.toNat!, b.toNat!⟩ url d l m) with
       | .badRequest => "400"
       | .dump => "200 dump"
       | .json d l m =>
@@ -185,15 +185,15 @@ def runLine (vv : VVariant) (sv : SortVariant) (lv : ListVariant) (line : String
 def flag (args : List String) (name : String) : Bool :=
   args.contains s!"{name}=repaired"
 
-partial def loop (vv : VVariant) (sv : SortVariant) (lv : ListVariant) (h : IO.FS.Stream) (out : IO.FS.Stream) : IO Unit := do
+partial def loop (vv : VVariant) (sv : SortVariant) (lv : ListVariant) (total : Bool) (h : IO.FS.Stream) (out : IO.FS.Stream) : IO Unit := do
   let line ← h.getLine
   if line.isEmpty then return
   let l := line.trimAscii.toString
-  if !l.isEmpty then out.putStrLn (runLine vv sv lv l)
-  loop vv sv lv h out
+  if !l.isEmpty then out.putStrLn (runLine vv sv lv total l)
+  loop vv sv lv total h out
 
 def main (args : List String) : IO Unit := do
   let vv : VVariant := ⟨flag args "reprocess", flag args "clientgone"⟩
   let sv : SortVariant := ⟨flag args "sortscope"⟩
   let lv : ListVariant := ⟨args.contains "listing=contract"⟩
-  loop vv sv lv (← IO.getStdin) (← IO.getStdout)
+  loop vv sv lv (args.contains "cmp=total") (← IO.getStdin) (← IO.getStdout)
